@@ -217,7 +217,7 @@ package state
 //@        lastarg(applyChangeCall, 1, *ChangeMessage).Value == unjsonOf(ChangeMessage, event.Data).Value &&
 //@        lastarg(applyChangeCall, 1, *ChangeMessage).Headers == unjsonOf(ChangeMessage, event.Data).Headers
 //@   ensures [C18.offset.ok] result == nil ==> m.lastOffset == event.Offset
-//@   ensures [C19.offset.err] result != nil ==> cnt(lockMat) == 0
+//@   ensures [C19.offset.err] {C19,C18} result != nil ==> cnt(lockMat) == 0
 //@   at unlock:Materializer.mu assert [C18.offset.cs] m.lastOffset == event.Offset && m.collections == acq(m.collections)
 
 //@ func (*Materializer).LastOffset
